@@ -24,8 +24,8 @@ PARALLEL = 16
 ASSUMPTIONS = [
     "npstructures: RaggedArray(flat, lengths, safe_mode=False)[..., :e] addresses row i as flat[start_i : start_i + len(row_i[:e])] "
     "with the declared lengths; np.lib.stride_tricks.sliding_window_view / as_strided give the flat windows in order",
-    "BitArray.pack(bit_stride=2).sliding_window(k) (4-letter alphabets) is specified as the little-endian base-4 number of the "
-    "window (exercised for every k 1..31)",
+    "BitArray.pack(bit_stride=2).sliding_window(k) (4-letter alphabets) is modelled word by word from the npstructures source "
+    "(uint64 shifts with shift >= 64 giving 0) and proved equal to the base-4 number of the window; exercised for every k 1..31",
     "int64 arithmetic is modelled exactly with two's-complement wrap for the hash; cases with |A|^k > 2^63 are run on the "
     "implementation against the exact oracle only (not sent to the Lean model)",
     "PWM scores: the model and the oracle add in the code's offset order, so results are bit-identical; the comparison still "
@@ -40,10 +40,12 @@ MANIFEST = {
             "(rolling_rowlocal; also with trailing partial results, as PWM scoring produces). Instances: k-mers (dot with "
             "|A|^arange(k) = little-endian base-|A| number; digits render back to the window under |A|^k <= 2^63), minimizers "
             "(two nested applications), string matching, PWM shifted accumulation = per-window sum in offset order over any "
-            "additive structure, k-mer counts. The refutation of the shipped slice [..., :(-w+1)] at w = 1 is kept. "
+            "additive structure, k-mer counts as the caller reads them (label -> number of windows spelling it). The 2-bit packed path "
+            "(BitArray.pack / sliding_window on uint64 registers: shifts, or, mask) is modelled literally and PROVED equal to the "
+            "generic base-4 hash for every k <= 31 (packedKmers_eq, packed_eq_generic, kmers_dispatch). The refutation of the shipped slice [..., :(-w+1)] at w = 1 is kept. "
             "Correspondence: implementation vs Lean model vs Lean spec vs Python oracle.",
     "note": "IEEE rounding of PWM scores is not modelled (same summation order => bit-identical in practice; compared with a "
-            "tolerance). The 2-bit packed k-mer path (npstructures BitArray) is a specified external. int64 wrap for "
+            "tolerance). The 2-bit packed k-mer path (npstructures BitArray, outside /repo) is modelled from its source and proved equal to the generic hash; that the installed BitArray behaves as modelled is exercised by the correspondence (register borders at 32/64/96 letters, every k 1..31). int64 wrap for "
             "|A|^k > 2^63 (ACGTN k >= 28, amino acids k >= 15) is a known finding.",
     "technique": "Lean 4 proofs by induction over ragged lists (core only) + differential correspondence with the implementation",
     "design": "§6 C13",
